@@ -753,7 +753,7 @@ func senderCases(r *mon.Run) []senderCase {
 	add(senderCase{Target: "sender", Script: []step{W(1), F, {K: "H"}, F}, Streams: many2, Cancel: cancelSpec{Kind: "stream", Stream: 0, At: 4, First: true}, Note: "stale-stream-cancel"})
 
 	// exhaustive dial scripts x cancellation points x drawn layouts (direct sender)
-	maxLen, maxF, layouts := 3, 2, 2
+	maxLen, maxF, layouts := 4, 2, 1
 	if r.Thorough() {
 		maxLen, maxF, layouts = 4, 4, 3
 	}
